@@ -108,7 +108,12 @@ class FortranGen:
         """boolean over exactly computed scalars only (so that it cannot flip between back ends)."""
         t = self.tape
         bs = self.of(D, "bool")
-        k = t.weighted([5, 1 if bs else 0, 1.5 if depth > 0 else 0, 1 if depth > 0 else 0], "cond")
+        k = t.weighted([5, 1 if bs else 0, 1.5 if depth > 0 else 0, 1 if depth > 0 else 0, 0.4], "cond")
+        if k == 4:
+            # isnan of an exactly computed scalar or of a user-type value (never NaN here, but the
+            # template, call isolation and Boolean result handling are exercised)
+            # (scalars only: on a vector the interpreter's isnan is elementwise and cannot be a condition)
+            return Call("<builtin>isnan", [self.g_exact(D, 1)])
         if k == 0:
             a = self.g_exact(D, 1)
             b = Const(self.pick([0.5, 1.5, 2.5, 0.75, -0.25, 3.5], "half"))
@@ -178,7 +183,10 @@ class FortranGen:
                      1.2 * c12,              # 8 guarded terminator
                      1,                      # 9 norm / builtin scalar
                      0.8,                    # 10 bool temp
-                     0.7]                    # 11 accumulate loop
+                     0.7,                    # 11 accumulate loop
+                     0.6,                    # 12 len()
+                     0.8,                    # 13 elementwise_abs on a user type
+                     0.8]                    # 14 array -> array built-ins (abs, transpose, matmul)
                 k = t.weighted(w, "opkind")
                 op = self.gen_op(k, D, depth)
                 if op is None:
@@ -333,6 +341,61 @@ class FortranGen:
             hi = lo + t.draw(n - lo + 1, "hi")
             self.counter_range = {"i": (lo, hi)}
             return ("assign", s, None, Bin("+", Var(s), Sub(a, Var("i"))), [("i", Const(lo), Const(hi))], self.mode())
+        if k == 12:
+            arrs = sorted(n for n in D if isinstance(self.types.get(n), tuple))
+            cands = [n for n in SC_TEMPS if self.cls.get(n, "exact") == "exact"]
+            tgt = self.new_name(cands, "real", D)
+            if tgt is None:
+                return None
+            self.cls[tgt] = "exact"
+            self.exact.add(tgt)
+            src = self.pick(arrs, "lena") if arrs and t.chance(0.6, "lenarr") else self.pick(uts, "lenu")
+            D.add(tgt)
+            return ("call", (tgt,), Call("<builtin>len", [Var(src)]), self.mode())
+        if k == 13:
+            tgt = self.new_name(UT_TEMPS, "ut", D)
+            if tgt is None:
+                return None
+            src = self.pick(uts, "absu")
+            if src == tgt:
+                return None
+            D.add(tgt)
+            return ("call", (tgt,), Call("<builtin>elementwise_abs", [Var(src)]), self.mode())
+        if k == 14:
+            arrs = sorted(n for n in D if isinstance(self.types.get(n), tuple))
+            if not arrs:
+                return None
+            a = self.pick(arrs, "ta")
+            n = self.types[a][1]
+            form = t.weighted([2, 2 if n in (2, 4) else 0, 1.5 if n in (2, 4) else 0], "aform")
+            if form == 0:
+                tgt = self.new_name([x for x in ARR_TEMPS if x != a], ("arr", n), D, reuse_p=0.0)
+                if tgt is None or tgt in D:
+                    return None
+                D.add(tgt)
+                return ("call", (tgt,), Call("<builtin>elementwise_abs", [Var(a)]), self.mode())
+            if form == 1:
+                tgt = self.new_name([x for x in ARR_TEMPS if x != a], ("arr", n), D, reuse_p=0.0)
+                if tgt is None or tgt in D:
+                    return None
+                D.add(tgt)
+                cols = Const(self.pick([1, 2] if n == 2 else [1, 2, 4], "tc"))
+                if t.chance(0.4, "tkw"):
+                    return ("call", (tgt,), Call("<builtin>transpose", [Var(a)], [("a_cols", cols)]), self.mode())
+                return ("call", (tgt,), Call("<builtin>transpose", [Var(a), cols]), self.mode())
+            # matmul of an n-array with itself: (r x c) . (c x r) with r*c = n  ->  r*r elements
+            c = self.pick([1, 2] if n == 2 else [1, 2, 4], "mc")
+            r = n // c
+            tgt = self.new_name([x for x in ARR_TEMPS if x != a], ("arr", r * r), D, reuse_p=0.0)
+            if tgt is None or tgt in D:
+                return None
+            D.add(tgt)
+            kws = [("a_cols", Const(c)), ("b_cols", Const(r))]
+            if t.chance(0.5, "mkw"):
+                if t.chance(0.5, "mswap"):
+                    kws.reverse()
+                return ("call", (tgt,), Call("<builtin>matmul", [Var(a), Var(a)], kws), self.mode())
+            return ("call", (tgt,), Call("<builtin>matmul", [Var(a), Var(a), Const(c), Const(r)]), self.mode())
         return None
 
     def gen(self):
